@@ -1,0 +1,23 @@
+//go:build verif
+
+// Contracts for package preprocessor (gRPC scenario "prepare" preprocessor), checked by /verif/govc. Comment-only: no code.
+package preprocessor
+
+// Variables for a call: each mapping entry is a template function call or a path into the shot's variables, looked up
+// with the scenario's shared iterator; the value found is stored under the entry's name; the shot's variables are only
+// read; a failed lookup fails the step and hands out nothing.
+//@ func (p *PreparePreprocessor) Process
+//@ props C15 C13 C11 C20
+//@ requires p.iterator != nil
+//@ loop 0 invariant result != nil && fresh(result)
+//@ loop 0 step [the-value-found-is-stored-under-the-entry-s-name] has(result, rangekey) && result[rangekey] == val
+//@ ensures [variables-are-required] imp(templateVars == nil, result0 == nil && result1 != nil)
+//@ ensures [a-result-or-an-error] iff(result1 == nil, result0 != nil)
+//@ at call mp.GetMapValue assert [looked-up-in-the-variables-of-this-shot] arg(current) == templateVars && arg(path) == v && arg(iter) == p.iterator
+//@ at call templater.ExecTemplateFuncWithVariables assert [function-arguments-from-this-shot] arg(fun) == result_of(templater.ParseFunc, 0) && arg(templateVars) == templateVars && arg(iter) == p.iterator
+//@ at call templater.ParseFunc assert [the-entry-s-expression] arg(v) == v
+
+//@ func (p *PreparePreprocessor) InitIterator
+//@ props C15 C11
+//@ ensures p.iterator == iterator
+//@ modifies p.iterator
